@@ -11,6 +11,7 @@ CONSTANTS
   FlagHeldThroughDbWrite = TRUE
   RootHashBeforeCommit = TRUE
   PrevEpochChecked = TRUE
+  ReadersSeePendingEpoch = FALSE
   ExportSched = TRUE
 INIT MCInit
 NEXT MCNext
